@@ -526,15 +526,25 @@ def r01_6(prog, rep, rid="R01.6"):
             continue
         h = mains[0]
         L = main_loop_stmt(f, h)
-        if L is None or not L.get("inc"):
-            continue
         cursor = set()
-        for b in loops[h]:
-            for e in cfg.blocks[b].elems:
-                if isinstance(e["x"], dict) and _in_range(e, L["inc"]):
-                    for l, kind, nn in writes(e["x"]):
-                        if kind != "decl" and strip_casts(l).get("k") == "ref":
-                            cursor.add(lv(l))
+        if L is not None and L.get("inc"):
+            for b in loops[h]:
+                for e in cfg.blocks[b].elems:
+                    if isinstance(e["x"], dict) and _in_range(e, L["inc"]):
+                        for l, kind, nn in writes(e["x"]):
+                            if kind != "decl" and strip_casts(l).get("k") == "ref":
+                                cursor.add(lv(l))
+        else:
+            # the step is not a for-statement's increment (a `while` with the step at its end): the cursor is what the loop writes of
+            # the variables that live outside it
+            L = L or {}
+            inner = {lv(l) for b in loops[h] for e in cfg.blocks[b].elems if isinstance(e["x"], dict) for l, kind, nn in writes(e["x"]) if kind == "decl"}
+            for b in loops[h]:
+                for e in cfg.blocks[b].elems:
+                    if isinstance(e["x"], dict):
+                        for l, kind, nn in writes(e["x"]):
+                            if kind != "decl" and strip_casts(l).get("k") == "ref" and strip_casts(l).get("dk") == "local" and lv(l) not in inner:
+                                cursor.add(lv(l))
         if not cursor:
             continue
         # scratch variables: locals written inside the loop body that are not part of the cursor
@@ -557,7 +567,7 @@ def r01_6(prog, rep, rid="R01.6"):
                     foreign = [lv(a) for a in args if a.get("k") == "ref" and a.get("dk") == "local" and lv(a) not in cursor
                                and any(lv(l2) == lv(a) and k2 != "decl" or (k2 == "decl" and lv(l2) == lv(a) and b2 in loops[h])
                                        for b2 in loops[h] for e2 in cfg.blocks[b2].elems if isinstance(e2["x"], dict) for l2, k2, n2 in writes(e2["x"]))]
-                    key = "%s/%s=%s@%s" % (f.name, lv(l), r["fn"], "step" if _in_range(e, L["inc"]) else "body")
+                    key = "%s/%s=%s@%s" % (f.name, lv(l), r["fn"], "step" if L.get("inc") and _in_range(e, L["inc"]) else "body")
                     if foreign:
                         rep.fail(rid, key, f.loc(nn.get("line", e.get("line"))),
                                  "%s is part of the calendar cursor (advanced by the loop step together with %s) but is assigned the length of month (%s): "
